@@ -30,7 +30,13 @@ def s_closure_vec(g, depth):
     exitk = r.choice(["none", "break", "continue", "none"])
     L = ["var %s = [];" % fs]
     body = ["var sq = %s * %s;" % (x, x), "var label = \"i${%s}\";" % x]
+    if r.chance(50):
+        body.insert(r.below(3), "var plain0 = %s + 0.5;" % x)      # uncaptured locals between captured ones
     body.append("%s.push(|| [%s, sq, label]);" % (fs, x) if r.chance(50) else "%s.push(|| { sq = sq + 1; return [sq, label]; });" % fs)
+    if r.chance(60):
+        body.append("var plain1 = [%s];" % x)
+    if r.chance(30):
+        body.append("var plain2 = plain1;" if "plain1" in body[-1] else "var plain2 = 1;")
     if exitk == "break":
         body.append("if %s == 2 { break; }" % x)
     elif exitk == "continue":
